@@ -111,13 +111,17 @@ class Scenario:
         self.process_noise = {u: float(rng.choice([0.5, 1.25, 2.0])) + 0.25 * i for i, u in enumerate(self.control)}
         self.calibration_map = {cs: float(Fraction(rng.randint(-6, 6), 4)) for cs in self.calibration}
 
-    def ui_model(self, ui, container="set"):
+    def ui_model(self, ui, container="set", proactive_simplify=False):
         rng = random.Random(self.rng.random())
         # list containers are declared in REVERSE name order (the opposite of the library's internal layout)
         mk = (lambda xs: set(xs)) if container == "set" else (lambda xs: sorted(xs, key=lambda s: s.name, reverse=True))
         items = list(self.state_model.items())
         rng.shuffle(items)
-        return ui.Model(dt=self.dt, state=mk(self.state), control=mk(self.control), calibration=mk(self.calibration), state_model=dict(items))
+        import contextlib
+        import io
+
+        with contextlib.redirect_stdout(io.StringIO()):  # (the option prints timing lines)
+            return ui.Model(dt=self.dt, state=mk(self.state), control=mk(self.control), calibration=mk(self.calibration), state_model=dict(items), **({"proactive_simplify": True} if proactive_simplify else {}))
 
     def point(self, seed=0):
         rng = random.Random(seed + 991)
@@ -146,7 +150,7 @@ class Scenario:
         }
 
 
-def renamed(sc, style="_t", seed=0, unused_control=False):
+def renamed(sc, style="_t", seed=0, unused_control=False, assumptions=False):
     """The same definition with every state / calibration / control symbol renamed to `<style><j>` (a permutation of 0..): `_t<j>` are the
     names the library itself uses for CSE temporaries, `x<j>` sympy's default ones."""
     import copy
@@ -156,7 +160,8 @@ def renamed(sc, style="_t", seed=0, unused_control=False):
     order = list(range(len(allsyms)))
     rng.shuffle(order)
     off = 1 if unused_control else 0
-    ren = {s: sympy.Symbol(f"{style}{j + off}") for s, j in zip(allsyms, order)}
+    kw = {"real": True} if assumptions else {}  # Symbol('_t0', real=True) prints as _t0 but is NOT equal to Symbol('_t0')
+    ren = {s: sympy.Symbol(f"{style}{j + off}", **kw) for s, j in zip(allsyms, order)}
     sc2 = copy.copy(sc)
     sc2.state = [ren[s] for s in sc.state]
     sc2.calibration = [ren[s] for s in sc.calibration]
@@ -168,7 +173,7 @@ def renamed(sc, style="_t", seed=0, unused_control=False):
     sc2.renaming = {k.name: v.name for k, v in ren.items()}
     if unused_control:
         # a declared control that no expression mentions, spelled like the FIRST temporary: it is an argument of every block
-        extra = sympy.Symbol(f"{style}0")
+        extra = sympy.Symbol(f"{style}0", **kw)
         sc2.control = sc2.control + [extra]
         sc2.process_noise = dict(sc2.process_noise)
         sc2.process_noise[extra] = 0.75
